@@ -151,6 +151,14 @@ func MakeProfile(prop string, seed uint64, tier string) *Profile {
 				p.MaxCrashes = 2 + r.Intn(3)
 			}
 		}
+		if r.Chance(1, 5) {
+			// through the HTTP handlers: resubmissions must get byte-identical SCTs
+			p.HTTP = true
+			p.RootsW = 6
+			p.PoolSize = 0
+			p.Tag += "+http"
+			p.Items = 10 + r.Intn(20)
+		}
 	case "C02":
 		p.DupPct = []int{10, 30, 50}[r.Intn(3)]
 		if r.Chance(1, 5) {
